@@ -41,12 +41,20 @@ impl ConvertPacket<MessageEvent> for MessageEvent {
         let receiver_address = packet.device_address;
         let transmitter_address = u16::from_be_bytes(packet.data[2..=3].try_into().unwrap());
         let code = u16::from_be_bytes(packet.data[4..=5].try_into().unwrap());
-        let value = unsafe {
-            transmute_copy::<[u8; size_of::<MessageValue>()], MessageValue>(
-                &packet.data[6..6 + size_of::<MessageValue>()]
-                    .try_into()
-                    .unwrap(),
-            )
+        let value = match u32::from_ne_bytes(packet.data[6..=9].try_into().unwrap()) {
+            0 => MessageValue::U8(packet.data[10]),
+            1 => MessageValue::U16(u16::from_ne_bytes(
+                packet.data[10..=11].try_into().unwrap(),
+            )),
+            2 => MessageValue::U32(u32::from_ne_bytes(
+                packet.data[10..=13].try_into().unwrap(),
+            )),
+            3 => match packet.data[10] {
+                0x00 => MessageValue::Bool(false),
+                0x01 => MessageValue::Bool(true),
+                _ => return Err(ConvertPacketError::UnknownEnumVariant),
+            },
+            _ => return Err(ConvertPacketError::UnknownEnumVariant),
         };
 
         Ok(Self {
